@@ -21,6 +21,7 @@ import (
 	"encoding/base64"
 	"encoding/hex"
 	"fmt"
+	"os"
 	"sort"
 	"strings"
 	"sync"
@@ -34,6 +35,8 @@ import (
 	"github.com/openbao/openbao/sdk/v2/physical"
 	"github.com/openbao/openbao/v2/internal/helper/namespace"
 )
+
+var c02Trace = os.Getenv("VERIF_C02_TRACE") != ""
 
 const c02AllCaps = `"create","read","update","delete","list","patch","scan","sudo"`
 
@@ -64,6 +67,9 @@ type c02Run struct {
 
 func (x *c02Run) step(format string, a ...any) {
 	x.steps = append(x.steps, fmt.Sprintf(format, a...))
+	if c02Trace {
+		x.t.Logf("step: %s", strings.ReplaceAll(x.steps[len(x.steps)-1], "\n", " "))
+	}
 	if len(x.steps) > 60 {
 		x.steps = x.steps[len(x.steps)-60:]
 	}
@@ -480,7 +486,11 @@ func (x *c02Run) build() {
 		if ns != "" {
 			x.nsRootTokens(ns, nsTag)
 		}
+		// callers that hold the token endpoints in their own namespace / on a descendant's path, and tokens to name
+		x.handleCallers(ns, nsTag)
 	}
+	// token trees that cross namespace boundaries
+	x.treeFamily()
 	// forged variants of real admin / batch tokens
 	var forged []*c02Tok
 	for _, t := range w.Toks {
@@ -839,6 +849,13 @@ func (x *c02Run) check(q *c02Req, vd *c02Verdict, o *c02Outcome, stage string) b
 			case strings.HasPrefix(vd.Reason, "token:parent-") && (len(o.Handlers) > 0 || o.OK || o.Carries):
 				class = "C02-batch-token-accepted-while-parent-not-live"
 				what += fmt.Sprintf(" [batch token of parent %s; parent record before the request: %s]", c02TokName(q.Tok.ParentTok), o.ParentRecord)
+			case vd.Reason == "token:revoked" && q.Tok.Kind == "revoked-with-ancestor" && (len(o.Handlers) > 0 || o.OK || o.Carries):
+				class = "C02-descendant-token-usable-after-ancestor-revoked"
+				anc := q.Tok.Up
+				for anc != nil && anc.Kind == "revoked-with-ancestor" {
+					anc = anc.Up
+				}
+				what += fmt.Sprintf(" [the token of namespace %q is a descendant of %s (namespace %q) whose tree revocation reported success]", q.Tok.NS, c02TokName(anc), c02NSOf(anc))
 			case q.Tok.Root && q.Tok.NS != "" && strings.Contains(vd.Reason, "root policy of another namespace"):
 				class = "C02-namespace-root-policy-honoured-outside-its-subtree"
 				what += fmt.Sprintf(" [the token carries the root policy of namespace %q; the request resolves to namespace %q]", q.Tok.NS, vd.NS)
@@ -1102,6 +1119,7 @@ func (x *c02Run) mutate() {
 		pol   *c02Policy
 		mnt   *c02Mount
 		prep  func() *c02Tok // creates the token the probe is issued with, once the candidate is chosen
+		post  func()         // further requests right after the post-probe
 	}
 	var cs []cand
 	// policy changes
@@ -1163,7 +1181,7 @@ func (x *c02Run) mutate() {
 	// token revocation
 	var livers []*c02Tok
 	for _, t := range w.Toks {
-		if (t.Kind == "live") && !t.Revoked && !strings.HasSuffix(t.Name, "/admin") {
+		if (t.Kind == "live") && !t.Revoked && !t.Limbo && !strings.HasSuffix(t.Name, "/admin") {
 			livers = append(livers, t)
 		}
 	}
@@ -1184,6 +1202,7 @@ func (x *c02Run) mutate() {
 			}
 			t.Revoked = true
 			t.Kind = "revoked"
+			x.killTree(t) // auth/token/revoke, revoke-accessor and revoke-self are tree revocations
 		}})
 	}
 	// revocation of the service token a batch token hangs off, with and without a storage fault
@@ -1232,6 +1251,47 @@ func (x *c02Run) mutate() {
 					x.r.Count("mutation_parent_record_after_fault:"+x.parentRecord(p), 1)
 				}
 				x.step("fault in %s of %s: %s -> %s", fl.name, c02TokName(p), f.what(), st)
+			}
+		}})
+	}
+	// tree revocation of an ancestor whose descendants live in other namespaces
+	{
+		fl := kit.Pick(rng, c02Flows())
+		faulted := rng.Chance(1, 3)
+		name := "tree-" + fl.name
+		if faulted {
+			name += "-faulted"
+		}
+		var nodes []*c02Tok
+		var k int
+		cs = append(cs, cand{name: name, prep: func() *c02Tok {
+			shapes := w.treeShapes(rng, 1)
+			if len(shapes) == 0 {
+				shapes = [][]string{{"", "", ""}}
+			}
+			x.pairs++
+			nodes = x.chain(fmt.Sprintf("m/tree%d", x.pairs), shapes[0], nil, rng.Chance(1, 2))
+			k = rng.Intn(len(nodes) - 1)
+			return nodes[len(nodes)-1]
+		}, apply: func() {
+			var f *c02Fault
+			if faulted {
+				f = x.arm(c02RevocationOps(nodes[k]), 1+rng.Intn(40), false)
+			}
+			st := x.revokeAndClassify(fl, nodes[k], nil)
+			if f != nil {
+				f.disarm()
+			}
+			x.r.Count("mutation_tree_revocation:"+st, 1)
+		}, post: func() {
+			// every other node of the tree, right away
+			for _, n := range nodes {
+				for _, tk := range append([]*c02Tok{n}, n.Kids...) {
+					if x.aborted {
+						return
+					}
+					x.do(x.dataProbe(tk, rng.Chance(1, 2)), "post-"+name+"-tree")
+				}
 			}
 		}})
 	}
@@ -1366,7 +1426,7 @@ func (x *c02Run) mutate() {
 		if probe.Op == "update" {
 			probe.Data = map[string]any{"v": "x"}
 		}
-	} else if strings.HasPrefix(c.name, "batch-parent-") {
+	} else if strings.HasPrefix(c.name, "batch-parent-") || strings.HasPrefix(c.name, "tree-") {
 		probe = x.dataProbe(c.tok, rng.Chance(1, 2))
 	} else {
 		probe = x.genReq(c.tok, true, c.pol)
@@ -1382,6 +1442,9 @@ func (x *c02Run) mutate() {
 	after, ok := x.do(probe, "post-"+c.name)
 	if !ok {
 		return
+	}
+	if c.post != nil {
+		c.post()
 	}
 	bk, ak := before.Kind, after.Kind
 	if bk == "allow" && !before.Handler {
@@ -1487,6 +1550,10 @@ func c02RunTopology(t *testing.T, r *kit.Result, seed int64, stream uint64, case
 		return
 	}
 	x.nsRootSweep("nsroot-sweep", 9)
+	if x.aborted {
+		return
+	}
+	x.handleSweep("handle-sweep", 160)
 	if x.aborted {
 		return
 	}
@@ -1607,6 +1674,15 @@ func TestVerif_C02_Requests(t *testing.T) {
 	r.Require("batch_refused_while_parent_record:absent", int64(ntopo*10))
 	r.Require("world_faults_fired", int64(ntopo*2))
 	r.Require("mutation_faults_fired", int64(ntopo))
+	r.Require("wouldallow_refused:revoked-with-ancestor", int64(ntopo*10))
+	r.Require("mutation_tree_revocation:reported-success", int64(ntopo*2))
+	r.Require("world_trees", int64(ntopo*2))
+	r.Require("handle_refuse_though_allowed_on_addressed_namespace", int64(ntopo*8))
+	r.Require("handle_refuse_though_allowed_on_addressed_namespace:client", int64(ntopo*3))
+	r.Require("handle_refuse_though_allowed_on_addressed_namespace:internal", int64(ntopo*2))
+	r.Require("handle_refuse_though_allowed_on_addressed_namespace:accessor", int64(ntopo*2))
+	r.Require("handle_refused_target_still_usable", int64(ntopo*40))
+	r.Require("handle_authorised_served_form:client", int64(ntopo*4))
 	r.Require("nsroot_outside_subtree:deny", int64(ntopo*40))
 	r.Require("nsroot_outside_subtree_refused:root-namespace", int64(ntopo*15))
 	r.Require("nsroot_outside_subtree_refused:ancestor", int64(ntopo*2))
